@@ -13,6 +13,7 @@ pub mod c11;
 pub mod c12;
 pub mod c13;
 pub mod c14;
+pub mod c15;
 pub mod c20;
 
 pub fn run(ctx: &mut Ctx) -> bool {
@@ -30,6 +31,7 @@ pub fn run(ctx: &mut Ctx) -> bool {
         "C12" => c12::run(ctx),
         "C13" => c13::run(ctx),
         "C14" => c14::run(ctx),
+        "C15" => c15::run(ctx),
         "C20" => c20::run(ctx),
         _ => return false,
     }
